@@ -277,6 +277,11 @@ Theorem seeded_noshuffle : forall (A : Type) (size : A -> nat) sort prefetch lim
 Proof. exact @seeded_noshuffle_l. Qed.
 Print Assumptions seeded_noshuffle.
 
+Theorem run_seeded_noshuffle : forall v, fits (length (v_items v)) -> v_bool (v_nth 1 v) = false ->
+  run_C06s v = run_C06 v.
+Proof. exact run_seeded_noshuffle_l. Qed.
+Print Assumptions run_seeded_noshuffle.
+
 (** the executable statement holds of the seeded model's own output *)
 Theorem check_run_seeded : forall v, fits (length (v_items v)) -> check_C06 v (run_C06s v) = true.
 Proof. exact check_run_seeded_l. Qed.
